@@ -135,10 +135,16 @@ package handlers
 // statistics and metrics only; none of them calls the proxy engine or writes to the client).
 //@ func (a *Application) logRequestStart
 //@   property C14
-//@   trusted
+//@   safety
+//@   requires pr != nil && pr.requestLogger != nil && pr.stats != nil
+//@ func (a *Application) buildLogFields
+//@   property C14
+//@   safety
+//@   requires pr != nil && pr.stats != nil
 //@ func (a *Application) logRequestResult
 //@   property C14
-//@   trusted
+//@   safety
+//@   requires a != nil && pr != nil && pr.requestLogger != nil && pr.stats != nil
 // C19: a translated request is reported exactly once, as a success iff no error answer was given to the client
 //@ func (a *Application) recordTranslatorMetrics
 //@   property C14 C19
